@@ -202,6 +202,17 @@ pub(crate) fn serialize_cdata<'a, N: Normalizer>(
                 }
                 closing_square_brackets_seen = 0;
             }
+            // a carriage return inside a CDATA section would be read back as
+            // a line feed, so write it as a character reference between two
+            // sections
+            '\r' => {
+                // push any closing square brackets we've seen
+                for _ in 0..closing_square_brackets_seen {
+                    result.push(']');
+                }
+                closing_square_brackets_seen = 0;
+                result.push_str("]]>&#xD;<![CDATA[");
+            }
             _ => {
                 // push any closing square brackets we've seen
                 for _ in 0..closing_square_brackets_seen {
